@@ -875,7 +875,7 @@ def main():
             raise ValueError("'-pid' option is required")
         # Retrieve object from HashStore and display the first 1000 bytes
         object_stream = hashstore_c.hashstore.retrieve_object(pid)
-        object_content = object_stream.read(1000).decode("utf-8")
+        object_content = object_stream.read(1000).decode("utf-8", errors="replace")
         object_stream.close()
         print(object_content)
         print("...\n<-- Truncated for Display Purposes -->")
@@ -885,7 +885,7 @@ def main():
             raise ValueError("'-pid' option is required")
         # Retrieve metadata from HashStore and display the first 1000 bytes
         metadata_stream = hashstore_c.hashstore.retrieve_metadata(pid, formatid)
-        metadata_content = metadata_stream.read(1000).decode("utf-8")
+        metadata_content = metadata_stream.read(1000).decode("utf-8", errors="replace")
         metadata_stream.close()
         print(metadata_content)
         print("...\n<-- Truncated for Display Purposes -->")
